@@ -520,6 +520,7 @@ class Gen:
         for i in range(len(m.messages)):
             w("        case %d: cursor_%d(p, img.size(), tk, o); break;" % (i, i))
         w("        default: return false; }")
+        w("        if(!gb.canary_ok(p)) o.err(\"write before the buffer\");")
         w("        o.tok(\"BUF \" + rt::Out::hexbytes(p, img.size())); return true; }")
         w("    if(cmd == \"tsize\") { std::size_t which = static_cast<std::size_t>(tk.dec());")
         w("        switch(mi) {")
